@@ -9,9 +9,9 @@ package main
 // carry no state. "B is error-gated by A" = B carries no state of A's error.
 
 import (
-	"go/constant"
 	"fmt"
 	"go/ast"
+	"go/constant"
 	"go/token"
 	"go/types"
 	"sort"
